@@ -36,6 +36,10 @@ var specs = []Spec{
 	{"x/stablestake/keeper", "Keeper.Borrow", "borrowGuards", false, true},
 	{"x/perpetual/keeper", "Keeper.CheckAndCloseAtStopLoss", "perpStopLossGuards", false, true},
 	{"x/perpetual/keeper", "Keeper.CheckAndCloseAtTakeProfit", "perpTakeProfitGuards", false, true},
+	{"x/tradeshield/keeper", "Keeper.ExecuteStopLossOrder", "execStopLossGuards", false, true},
+	{"x/tradeshield/keeper", "Keeper.ExecuteLimitSellOrder", "execLimitSellGuards", false, true},
+	{"x/tradeshield/keeper", "Keeper.ExecuteLimitBuyOrder", "execLimitBuyGuards", false, true},
+	{"x/tradeshield/keeper", "Keeper.ExecuteLimitOpenOrder", "execLimitOpenGuards", false, true},
 	{"x/masterchef/keeper", "Keeper.CollectGasFees", "collectGasFees", true, false},
 	{"x/masterchef/keeper", "Keeper.CollectPerpRevenue", "collectPerpRevenue", true, false},
 	{"x/stablestake/keeper", "Keeper.InterestRateComputation", "interestRateComputation", false, false},
@@ -60,4 +64,5 @@ var errorsMap = map[string]string{
 	"ErrBalanceNotAvailable": ".badArgs",
 	"ErrInvalidBorrowDenom":  ".badArgs",
 	"ErrMaxBorrowAmount":     ".limitMax",
+	"ErrZeroMarketPrice":     ".noPrice",
 }
